@@ -355,6 +355,24 @@ theorem compiled_same {cx : Ctx} (ht : Tame cx) (hT : TameC cx) (hC : CfgOk cx) 
   obtain ⟨r, l⟩ := o
   simp at h; subst h; rfl
 
+/-- **compiled call log.**  In an evaluation where no sub-expression is an error (`Quiet`; macro bodies of the expected
+type) the transpiled program computes the same value and applies the host functions at the call sites `sitesE`:
+exactly the interpreter's `sites`, EXCEPT that both branches of every `?:` are reached. -/
+theorem compiled_log_quiet {cx : Ctx} (e : Expr) (env : List Val) (hq : Quiet cx env e) :
+    evalC cx env e = (.ok (den cx env e), sitesE cx env e) :=
+  evalC_quiet e env hq
+
+/-- **finding D41, as a theorem about the transpiled program**: the branch that is not selected is reached too. -/
+theorem compiled_cond_eager (cx : Ctx) (env : List Val) (c x y : Expr) :
+    sitesE cx env (.cond c x y) = sitesE cx env c ++ (sitesE cx env x ++ sitesE cx env y) := rfl
+
+/-- **compiled_same (value AND call log)**: on quiet evaluations of expressions without `?:` the two runners are
+indistinguishable — same value, same host functions applied to the same arguments in the same order. -/
+theorem compiled_same_log {cx : Ctx} (ht : Tame cx) (e : Expr) (env : List Val) (hq : Quiet cx env e)
+    (hn : noCond e = true) :
+    evalC cx env e = evalI cx env e := by
+  rw [evalC_quiet e env hq, evalI_spec ht e env, sitesE_eq_sites e env hq hn]
+
 /-- the default configuration (the handler lists of the source now) satisfies `CfgOk` -/
 theorem cfgOk_default (fns : String → Option Fn) : CfgOk { fns := fns } := by
   refine ⟨?_, ?_, ?_⟩ <;> rfl
@@ -383,6 +401,15 @@ example : Funcs.runI exCx (.call "f" [.call "g" [.lit (.int 1)]]) = (.ok .err, [
 example : Funcs.runC exCx (.call "f" [.call "g" [.lit (.int 1)]]) = (.ok .err, [("g", [.int 1])]) := by rfl
 /-- the hypotheses of `compiled_same` are satisfiable -/
 example : kindsOk exFns = true := by decide
+/-- … and those of `compiled_same_log`: `[1, 2].all(x, f(x) < 1000)` is quiet and has no `?:` -/
+example : Quiet exCx [] (.all (.lit (.list [.int 1, .int 2])) (.lt (.call "f" [.var 0]) (.lit (.int 1000)))) := by
+  refine ⟨rfl, [.int 1, .int 2], rfl, ?_⟩
+  intro v hv
+  simp at hv
+  rcases hv with rfl | rfl <;>
+    exact ⟨⟨⟨⟨⟨_, rfl, rfl⟩, trivial⟩, rfl⟩, rfl, rfl⟩, rfl⟩
+example : (evalC exCx [] (.all (.lit (.list [.int 1, .int 2])) (.lt (.call "f" [.var 0]) (.lit (.int 1000))))).2 =
+    [("f", [.int 1]), ("f", [.int 2])] := by rfl
 /-- **finding D41** in the model: the transpiled `true ? f(1) : f(2)` applies `f` to 2 as well -/
 example : (Funcs.runI exCx (.cond (.lit (.bool true)) (.call "f" [.lit (.int 1)]) (.call "f" [.lit (.int 2)]))).2 = [("f", [.int 1])] ∧
     (Funcs.runC exCx (.cond (.lit (.bool true)) (.call "f" [.lit (.int 1)]) (.call "f" [.lit (.int 2)]))).2 = [("f", [.int 1]), ("f", [.int 2])] := by
